@@ -989,9 +989,9 @@ pub fn run() {
     ctx.set("traces_validated_against_impl", runs + nproc);
     ctx.set("evaluations", runs + nexp + nproc);
     ctx.set("distinct_nontrivial", distinct);
-    ctx.set("rule", "schedule = (program, configuration, budget N, multiset of interrupt cycles, multiset of reset cycles); every schedule of the stated families is run through RunnerConfig::run and through REF-RUN (the statement's loop on the public Machine API): emulated_cycles and the final Machine (PartialEq) must agree; RunExpectations::verify over all 2^3 stated-field subsets x match/mismatch values on 4 final machines; process level: stdout values and exit status of the real binary per invocation");
+    ctx.set("rule", "schedule = (program, configuration, budget N, multiset of interrupt cycles, multiset of reset cycles); every schedule of the stated families is run through RunnerConfig::run and through REF-RUN (the statement's loop on the public Machine API): emulated_cycles and the final Machine (PartialEq) must agree; RunExpectations::verify over all 2^3 stated-field subsets x match/mismatch values on 4 final machines; constructor == setters for every configuration field and pair; a RunnerConfig run twice and with every field assigned anew; error values and rendered messages keep found/expected in their roles; process level: stdout values and exit status of the real binary per invocation (every byte literal in every spelling, 24 argument orders, -vvvv, budgets up to usize::MAX, the program through a pipe)");
     ctx.set("exhaustive", true);
-    ctx.set("bounds", format!("6 programs x 3-5 configurations x budgets 0..={} (+90/120/150 for the ISR program); interrupt cycles: all subsets of {{0,1,2,5,N-1,N,N+3}} + all sub-multisets (multiplicity <= 2) of {{1,5,N-1,N/2,N}}, each also in reverse order; reset cycles: all subsets of {} + sub-multisets of {{0,5,N-1}}; {} verify() cases; {} process invocations", max_n, if quick { "{0,5,N-1,N}" } else { "{0,1,5,N-1,N,N+3}" }, nexp, nproc));
+    ctx.set("bounds", format!("6 programs x 3-5 configurations x budgets 0..={} (+90/120/150 for the ISR program, + 65 600-cycle runs with events on both sides of 2^16, + an event at every cycle); interrupt cycles: all subsets of {{0,1,2,5,N-1,N,N+3}} + all sub-multisets (multiplicity <= 2) of {{1,5,N-1,N/2,N}}, each also in reverse order; reset cycles: all subsets of {} + sub-multisets of {{0,5,N-1}}; {} verify() cases; {} process invocations", max_n, if quick { "{0,5,N-1,N}" } else { "{0,1,5,N-1,N,N+3}" }, nexp, nproc));
     ctx.set("library_runs", runs);
     ctx.set("verify_cases", nexp);
     ctx.set("process_invocations", nproc);
